@@ -639,7 +639,8 @@ func runC07(args []string) {
 	enc := json.NewEncoder(tf)
 	bad := []int{}
 	ntrace := 0
-	cnt := map[string]int{}
+	cnt := map[string]int{"masked_runtime_errors": 0, "write_panics": 0, "compile_PANIC": 0, "compile_FATAL": 0, "compile_TIMEOUT": 0}
+	var msTotal int64
 	corrupt := os.Getenv("VERIF_CORRUPT_TRACE") != ""
 	for _, j := range jobs {
 		i := j.ID
@@ -654,6 +655,7 @@ func runC07(args []string) {
 			continue
 		}
 		cnt["compile_"+o.Compile]++
+		msTotal += o.Ms
 		ntrace++
 		enc.Encode(traceEv{Ev: "reset", Pkg: i})
 		cr := o.Compile
@@ -701,7 +703,7 @@ func runC07(args []string) {
 	for i := range results {
 		hlib.Emit(results[i])
 	}
-	sum := map[string]any{"v": "summary", "jobs": len(jobs), "traces": ntrace}
+	sum := map[string]any{"v": "summary", "jobs": len(jobs), "traces": ntrace, "job_ms_total": msTotal}
 	for k, v := range cnt {
 		sum[k] = v
 	}
